@@ -39,6 +39,22 @@ BUILTIN_SUPERS = {
     'zlib.error': ['Exception'],
     'struct.error': ['Exception'],
 }
+
+
+def _builtin_hierarchy():
+    """The language's own exception hierarchy (ConnectionError < OSError, ...); alias names (IOError, EnvironmentError,
+    socket.error) are spelled as the class they are."""
+    import builtins
+    for n, v in vars(builtins).items():
+        if isinstance(v, type) and issubclass(v, BaseException):
+            real = v.__name__
+            if n != real:
+                BUILTIN_SUPERS.setdefault(n, [real])
+            elif n not in BUILTIN_SUPERS:
+                BUILTIN_SUPERS[n] = [b.__name__ for b in v.__bases__ if issubclass(b, BaseException)]
+
+
+_builtin_hierarchy()
 EXT_ALIASES = {'socket.error': 'OSError', 'socket.timeout': 'socket.timeout', 'select.error': 'OSError',
                'ssl.SSLError': 'ssl.SSLError', 'zlib.error': 'zlib.error'}
 
@@ -138,11 +154,12 @@ class Exc(object):
                     d = t[4:]
                     if d.startswith('builtins.'):
                         d = d[9:]
+                    d = {'IOError': 'OSError', 'EnvironmentError': 'OSError'}.get(d, d)
                     out.append(EXT_ALIASES.get(d, d))
                     got = True
             if not got:
                 if isinstance(e, ast.Name) and (e.id in BUILTIN_EXC or e.id in BUILTIN_SUPERS):
-                    out.append(e.id)
+                    out.append({'IOError': 'OSError', 'EnvironmentError': 'OSError'}.get(e.id, e.id))
                 else:
                     raise AnalysisError('cannot resolve exception class %s in %s' % (U(e), ctx))
         return out
